@@ -32,12 +32,14 @@ from cbc import wrap
 from cbc import oracles_b as O
 
 PID = "C09"
-BACKENDS = ("pandas", "polars", "sqlite")
+BACKENDS = ("pandas", "polars", "polars-eager", "sqlite")  # polars-eager: the same executor with use_lazy_eval=False (its own code path for empty results)
 CONTRACTS = {
     ("pandas", "project"): "PandasModelBase._project_step",
     ("pandas", "wext"): "PandasModelBase._extend_step[windowed]",
     ("polars", "project"): "PolarsModel._project_step",
     ("polars", "wext"): "PolarsModel._extend_step[windowed]",
+    ("polars-eager", "project"): "PolarsModel._project_step",
+    ("polars-eager", "wext"): "PolarsModel._extend_step[windowed]",
     ("sqlite", "project"): "DBHandle.read_query[SQLite]",
     ("sqlite", "wext"): "DBHandle.read_query[SQLite]",
 }
@@ -221,7 +223,8 @@ def _ensure_attached():
         for node, kind in (("ProjectNode", "project"), ("ExtendNode", "wext")):
 
             def when(call, be=be, kind=kind):
-                return _STATE.get("active") == (be, kind) and _is_focus(call.kwargs.get("op"), kind)
+                act = _STATE.get("active")
+                return act is not None and (act == (be, kind) or (be == "polars" and act == ("polars-eager", kind))) and _is_focus(call.kwargs.get("op"), kind)
 
             wrap.attach_dispatch(model, node, wrap.contract(post=_step_post, name=CONTRACTS[(be, kind)], when=when))
 
@@ -246,6 +249,8 @@ def _run(be: str, ops, key: str, table) -> Tuple:
         return O.canon_out(C.run_pandas(ops, {"d": C.to_pandas(table, SCHEMA)}))
     if be == "polars":
         return O.canon_out(C.run_polars(ops, {"d": C.to_polars(table, SCHEMA)}))
+    if be == "polars-eager":
+        return O.canon_out(C.run_polars(ops, {"d": C.to_polars(table, SCHEMA)}, use_lazy_eval=False))
     ses = O.SqliteSession.get()
     ses.load("d", C.to_pandas(table, SCHEMA))
     return O.canon_out(ses.read_ops(key, ops))
